@@ -1549,6 +1549,8 @@ void ex(void)
 		if (ln) {
 			ex_command(ln);
 			reg_put(':', ln, 1);
+		} else if (!xled && feof(stdin)) {
+			xquit = 1;	/* the script has ended */
 		}
 		free(ln);
 	}
